@@ -35,6 +35,7 @@ func main() {
 	avoid := fs.String("avoid", "", "generator filters (known findings)")
 	disk := fs.Uint64("disk", 20000, "disk size in blocks")
 	dumpEach := fs.Int("dumpeach", 50, "dump every n steps")
+	prop := fs.String("prop", "", "probes: property filter")
 	fs.Parse(os.Args[2:])
 	if os.Getenv("VERIF_DEBUG_LEAK") != "" {
 		drv.AfterExec = func(c *drv.Call) {
@@ -58,6 +59,14 @@ func main() {
 				os.Exit(2)
 			}
 		}
+		t.Close()
+		fmt.Printf("events=%d\n", t.N)
+	case "probes":
+		t, err := drv.NewTrace(*out)
+		if err != nil {
+			panic(err)
+		}
+		drv.RunProbes(*prop, t, true)
 		t.Close()
 		fmt.Printf("events=%d\n", t.N)
 	default:
